@@ -26,9 +26,9 @@ __CPROVER_requires(self->work_items_count_ >= 0 && self->work_items_count_ <= VX
 __CPROVER_requires(G.last_pop == 0 && G.freed_last == 0 && g_erases == 0 && g_map_decs == 0 && g_map_pend == 0)
 /* (1) run_now, no error: ONE thread object made from `data` with the requested initial state, inserted once into the map and
  *     counted once (after the insertion), queued exactly once iff the requested state is pending -- the object just created,
- *     at the front end; nothing staged */
+ *     nothing staged */
 __CPROVER_ensures((g_run0 && G.err == 0) ==> (g_cto == 1 && G.cto_data == g_data_id && G.cto_requested == g_init0 && g_ins == 1 && g_ins_fail == 0 && g_map_incs == 1 && \
-                   g_sched == (PEND0 ? 1 : 0) && (PEND0 ==> (G.sched_id == G.ins_id && !G.sched_other_end)) && NOTHING_STAGED(self)))
+                   g_sched == (PEND0 ? 1 : 0) && (PEND0 ==> G.sched_id == G.ins_id) && NOTHING_STAGED(self)))
 /* (2) ... and the caller gets the id: always when the thread was not queued, and when it asked for it otherwise */
 __CPROVER_ensures((g_run0 && G.err == 0 && id != NULL) ==> (*id != NULL && TD_ID(*id) == G.ins_id))
 /* (3) staged, no error: counter +1 BEFORE the push (asserted there), ONE description allocated, constructed from `data`, pushed
